@@ -6,6 +6,7 @@ import (
 
 	"github.com/hashicorp/hcl/v2"
 	"github.com/hashicorp/hcl/v2/hclsyntax"
+	hcljson "github.com/hashicorp/hcl/v2/json"
 	"github.com/zclconf/go-cty/cty"
 	"hclverif/hv"
 )
@@ -22,16 +23,12 @@ func run(src string, vars map[string]cty.Value) {
 }
 
 func main() {
-	m := func(v cty.Value) cty.Value { return v.Mark("s") }
-	n := func(i int64) cty.Value { return cty.NumberIntVal(i) }
-	lt := cty.ListVal([]cty.Value{cty.TupleVal([]cty.Value{cty.StringVal("a"), n(1)})})
-	mo := cty.ObjectVal(map[string]cty.Value{"a": n(1), "b": cty.StringVal("x")})
-	for _, k := range []cty.Value{m(cty.UnknownVal(cty.String)), m(cty.StringVal("a"))} {
-		vars := map[string]cty.Value{"lt": lt, "mo": mo, "k": k, "tp": cty.TupleVal([]cty.Value{cty.StringVal("a"), n(1)})}
-		run(`mo[k]`, vars)
-		run(`tp[mo[k]]`, vars)
-		run(`lt[*][mo[k]]`, vars)
-		run(`lt[0][mo[k]]`, vars)
-		run(`[for x in lt : x[mo[k]]]`, vars)
+	for _, t := range []string{"\"\\r'a$$${\"", "\"'a$$${\"", "\"\\ra$$${\"", "\"a\\r$$${\"", "\"\\n$$${\"", "\"\\r$${\"", "\"\\r%%%{\"", "\"\\r\\n$$${\""} {
+		e, d := hcljson.ParseExpression([]byte(t), "p.json")
+		if d.HasErrors() { fmt.Println(t, d); continue }
+		v, dd := e.Value(&hcl.EvalContext{})
+		fmt.Printf("%-20s => %#v %v\n", t, v, dd)
 	}
+	run("\"\\r$$${\"", nil)
+	run("<<EOT\n\r$$${\nEOT\n", nil)
 }
